@@ -475,6 +475,19 @@ List gen_state(vh::Reader &rd, size_t n, bool *boundary)
         break;
     }
     l.emplace_back(key, val);
+    // A list near the largest header the limits allow (32 members x (256 + '=' + 256) + 31 commas = 16447
+    // bytes): when the first member of a list of 31 or more members drew a 256-character key AND a 256-character
+    // value, every further member is of (almost) maximal length too.  No extra stream byte is read.
+    if (i == 0 && n >= 31 && key.size() == 256 && val.size() == 256)
+    {
+      for (size_t j = 1; j < n; ++j)
+      {
+        std::string k2 = "k" + std::to_string(j) + "_";
+        k2 += std::string(256 - (j % 2) - k2.size(), kKeyChars[j % (sizeof(kKeyChars) - 1)]);
+        l.emplace_back(k2, std::string(256 - (j % 3 == 0 ? 1 : 0), kValChars[j % (sizeof(kValChars) - 1)]));
+      }
+      return l;
+    }
   }
   return l;
 }
